@@ -44,6 +44,9 @@ DEEP_FULL_QUICK = ("and", "not", "iff-l", "plus", "bvadd", "ite-bv-p1", "ite-int
 # the two set-valued size measures keep one frozenset of all sub-nodes per node (quadratic
 # memory): their recursion test is run on a chain of this depth only (see report)
 DEEP_SETSIZE = 1000
+# operators whose diamond family is also run at the recursion-test depth (memory-copy chains
+# mem' = store(mem, dst, select(mem, src)), shared conjunctions, shared BV sums)
+DEEP_DIAMONDS = ("store-bv", "store", "and", "bvadd", "ite-bv-p1")
 
 # per operation: C = callbacks per distinct node of F (all walkers together), R = create_node
 # calls per distinct node.  Derivation (from the algorithms, see DESIGN C20):
@@ -627,6 +630,9 @@ def shards(ctx):
         if dia:
             out.append((opname, "diamond", "count", COUNT_SIZES, None))
             out.append((opname, "diamond", "height", (DIAMOND_HEIGHT,), None))
+            if opname in DEEP_DIAMONDS:
+                # deep *and* shared: DAG size ~ n, nesting depth n, tree size 2^n
+                out.append((opname, "diamond", "deep", (), DEEP_QUICK if ctx.quick else DEEP_THOROUGH))
     if ctx.parts:
         out = [s for s in out if s[0] in ctx.parts or "%s:%s:%s" % (s[0], s[1], s[2]) in ctx.parts]
     # longest first
